@@ -251,6 +251,52 @@ struct AbiRunner {
       return "ok guest=" + to_dec(read_guest<G>(raw));
     });
   }
+  // sandbox reference assigned from a sandbox reference of ANOTHER integer type: `*p_T = *p_U`, the source holding guest value v
+  template<typename T, typename U> std::string tvtv_one(i128 v)
+  {
+    using GT = typename rlbox::rlbox_sandbox<Sbx>::template convert_to_sandbox_equivalent_nonclass_t<T>;
+    using GU = typename rlbox::rlbox_sandbox<Sbx>::template convert_to_sandbox_equivalent_nonclass_t<U>;
+    if (!representable<GU>(v)) return "badinput";
+    if (sb.get_sandbox_impl()->brk > (1u << 15)) sb.get_sandbox_impl()->brk = 16; // recycle the bump arena
+    return guarded([&]() -> std::string {
+      auto blk = sb.template malloc_in_sandbox<char>(64);
+      char* raw = blk.UNSAFE_unverified();
+      std::memset(raw, 0xAB, 64);
+      GU gu = (GU)v; std::memcpy(raw + 8, &gu, sizeof gu);                  // source cell at +8 (its neighbours are 0xAB)
+      rlbox::tainted<U*, Sbx> ps = rlbox::sandbox_reinterpret_cast<U*>(blk + 8);
+      rlbox::tainted<T*, Sbx> pd = rlbox::sandbox_reinterpret_cast<T*>(blk + 32);
+      *pd = *ps;
+      bool frame = true;
+      for (size_t i = 0; i < 64; i++) if ((i < 8 || (i >= 8 + sizeof(GU) && i < 32) || i >= 32 + sizeof(GT)) && (unsigned char)raw[i] != 0xAB) frame = false;
+      return "ok guest=" + to_dec(read_guest<GT>(raw + 32)) + (frame ? "" : " FRAME-BROKEN");
+    });
+  }
+  template<typename T> std::string tvtv_u(const std::string& u, i128 v)
+  {
+    if (u == "schar") return tvtv_one<T, signed char>(v);
+    if (u == "uchar") return tvtv_one<T, unsigned char>(v);
+    if (u == "short") return tvtv_one<T, short>(v);
+    if (u == "ushort") return tvtv_one<T, unsigned short>(v);
+    if (u == "int") return tvtv_one<T, int>(v);
+    if (u == "uint") return tvtv_one<T, unsigned int>(v);
+    if (u == "long") return tvtv_one<T, long>(v);
+    if (u == "ulong") return tvtv_one<T, unsigned long>(v);
+    if (u == "llong") return tvtv_one<T, long long>(v);
+    return "badop";
+  }
+  std::string tvtv(const std::string& t, const std::string& u, i128 v)
+  {
+    if (t == "schar") return tvtv_u<signed char>(u, v);
+    if (t == "uchar") return tvtv_u<unsigned char>(u, v);
+    if (t == "short") return tvtv_u<short>(u, v);
+    if (t == "ushort") return tvtv_u<unsigned short>(u, v);
+    if (t == "int") return tvtv_u<int>(u, v);
+    if (t == "uint") return tvtv_u<unsigned int>(u, v);
+    if (t == "long") return tvtv_u<long>(u, v);
+    if (t == "ulong") return tvtv_u<unsigned long>(u, v);
+    if (t == "llong") return tvtv_u<long long>(u, v);
+    return "badop";
+  }
   template<typename T> std::string storex_u(const std::string& u, i128 v)
   {
     if (u == "schar") return storex_one<T, signed char>(v);
@@ -338,6 +384,13 @@ int main()
     // tvstore_x <abi> <T> <U> <v>: `tainted_volatile<T> = (U)v` for mixed integer types
     if (op == "tvstore_x" && t.size() == 5) {
       auto run = [&](auto& runner) -> std::string { return runner.storex(t[2], t[3], parse_dec(t[4])); };
+      if (t[1] == "A") return run(ra);
+      if (t[1] == "B") return run(rb);
+      if (t[1] == "C") return run(rc);
+      return "badop";
+    }
+    if (op == "tvtv" && t.size() == 5) {
+      auto run = [&](auto& runner) -> std::string { return runner.tvtv(t[2], t[3], parse_dec(t[4])); };
       if (t[1] == "A") return run(ra);
       if (t[1] == "B") return run(rb);
       if (t[1] == "C") return run(rc);
